@@ -287,6 +287,23 @@ fn truncated_maps(ctx: &mut Ctx) {
         let total = bytes.len() / 8;
         offsets.push(total);
         let name = format!("{}/vmon-c14-{}-{}-{}", ctx.tmpdir, std::process::id(), ctx.shard, c);
+        // Byte-granular cuts inside an element: the map itself may be refused; if it is granted, no cut structure may be.
+        for k in 1..total {
+            let cut = k * 8 - 1 - (k % 7);
+            std::fs::write(&name, &bytes[..cut]).unwrap();
+            if let Ok(Ok(map)) = guard(|| MemoryMap::new(&name, MappingMode::ReadOnly)) {
+                for (i, it) in items.iter().enumerate() {
+                    if offsets[i + 1] * 8 <= cut { continue; }
+                    points += 1;
+                    ctx.checks += 1;
+                    match guard(|| view(&map, offsets[i], it)) {
+                        Ok(Err(_)) => {},
+                        Ok(Ok(r)) => ctx.violation(&format!("view.truncated.accepted.{}", it.kind()), format!("view of {} (bytes {}..{}) granted ({:?}) on a file cut to {} bytes (inside an element)", it.kind(), offsets[i] * 8, offsets[i + 1] * 8, r, cut)),
+                        Err(p) => ctx.violation(&format!("view.truncated!panic.{}", it.kind()), format!("view of {} panicked ({}) on a file cut to {} bytes", it.kind(), p, cut)),
+                    }
+                }
+            }
+        }
         for k in 1..total {
             std::fs::write(&name, &bytes[..k * 8]).unwrap();
             if let Ok(Ok(map)) = guard(|| MemoryMap::new(&name, MappingMode::ReadOnly)) {
@@ -368,8 +385,9 @@ pub fn child(kv: &BTreeMap<String, String>) -> ! {
             Err(_) => "ctor_err".to_string(),
             Ok(mut w) => {
                 let pushed = guard(|| { for i in 0..count { w.push(pattern(i)); } });
-                if pushed.is_err() { std::mem::forget(w); "push_panic".to_string() }
-                else { match w.close() { Ok(()) => "close_ok".to_string(), Err(_) => "close_err".to_string() } }
+                // The failure has been reported once (panic / Err); a later close() must not turn it into success.
+                if pushed.is_err() { let later = guard(|| w.close().is_ok()); std::mem::forget(w); if later == Ok(true) { "push_panic_then_close_ok".to_string() } else { "push_panic".to_string() } }
+                else { match w.close() { Ok(()) => "close_ok".to_string(), Err(_) => { let again = guard(|| w.close().is_ok()); std::mem::forget(w); if again == Ok(true) { "close_err_then_close_ok".to_string() } else { "close_err".to_string() } } } }
             },
         }
     } else {
@@ -378,8 +396,8 @@ pub fn child(kv: &BTreeMap<String, String>) -> ! {
             Err(_) => "ctor_err".to_string(),
             Ok(mut w) => {
                 let pushed = guard(|| { for i in 0..count { unsafe { w.push_int(pattern(i), width); } } });
-                if pushed.is_err() { std::mem::forget(w); "push_panic".to_string() }
-                else { match w.close() { Ok(()) => "close_ok".to_string(), Err(_) => "close_err".to_string() } }
+                if pushed.is_err() { let later = guard(|| w.close().is_ok()); std::mem::forget(w); if later == Ok(true) { "push_panic_then_close_ok".to_string() } else { "push_panic".to_string() } }
+                else { match w.close() { Ok(()) => "close_ok".to_string(), Err(_) => { let again = guard(|| w.close().is_ok()); std::mem::forget(w); if again == Ok(true) { "close_err_then_close_ok".to_string() } else { "close_err".to_string() } } } }
             },
         }
     };
@@ -425,6 +443,11 @@ fn limited_writers(ctx: &mut Ctx) {
                         },
                         "ctor_err" | "push_panic" | "close_err" => {
                             if limit >= size { ctx.violation(&format!("writer.limit.spurious_failure.{}", kind), format!("{}: outcome {} although the limit allows the whole file", what(), outcome)); }
+                        },
+                        "push_panic_then_close_ok" | "close_err_then_close_ok" => {
+                            if on_disk != expected {
+                                ctx.violation(&format!("writer.limit.success_after_failure.{}", kind), format!("{}: {} - a close() after the reported failure returned Ok but the file has {} of {} bytes", what(), outcome, on_disk.len(), size));
+                            }
                         },
                         _ => { ctx.inconclusive(format!("{}: child gave {}", what(), outcome)); },
                     }
